@@ -14,6 +14,8 @@ pub trait Subject: Region + Clone {
     const POOL: u64;
     fn put(&mut self, k: u64) -> Self::Index;
     fn same(&self, i: Self::Index, k: u64) -> bool;
+    /// Canonical byte encoding of the item read at `i` (for comparing two regions with each other, not with the pool).
+    fn dump(&self, i: Self::Index) -> Vec<u8>;
     /// payload bytes + index entries a pushed pool value must account for at least (C18)
     fn payload(k: u64) -> usize;
     fn reserve_pool(&mut self, ks: &[u64]);
@@ -29,6 +31,9 @@ impl Subject for OwnedRegion<u8> {
     }
     fn same(&self, i: Self::Index, k: u64) -> bool {
         self.index(i) == BYTES[k as usize]
+    }
+    fn dump(&self, i: Self::Index) -> Vec<u8> {
+        self.index(i).to_vec()
     }
     fn payload(k: u64) -> usize {
         BYTES[k as usize].len()
@@ -47,6 +52,9 @@ impl Subject for StringRegion {
     fn same(&self, i: Self::Index, k: u64) -> bool {
         self.index(i) == string(k)
     }
+    fn dump(&self, i: Self::Index) -> Vec<u8> {
+        self.index(i).as_bytes().to_vec()
+    }
     fn payload(k: u64) -> usize {
         string(k).len()
     }
@@ -63,6 +71,9 @@ impl Subject for SliceRegion<MirrorRegion<u8>> {
     }
     fn same(&self, i: Self::Index, k: u64) -> bool {
         self.index(i).iter().eq(BYTES[k as usize].iter().copied())
+    }
+    fn dump(&self, i: Self::Index) -> Vec<u8> {
+        self.index(i).iter().collect()
     }
     fn payload(k: u64) -> usize {
         BYTES[k as usize].len()
@@ -84,6 +95,9 @@ impl Subject for SliceRegion<OwnedRegion<u8>> {
         let it = self.index(i);
         it.len() == NESTED[k as usize].len() && it.iter().zip(NESTED[k as usize].iter()).all(|(a, b)| a == *b)
     }
+    fn dump(&self, i: Self::Index) -> Vec<u8> {
+        self.index(i).iter().flat_map(|x| std::iter::once(x.len() as u8).chain(x.iter().copied())).collect()
+    }
     fn payload(k: u64) -> usize {
         NESTED[k as usize].iter().map(|x| x.len()).sum::<usize>() + NESTED[k as usize].len() * std::mem::size_of::<(usize, usize)>()
     }
@@ -104,6 +118,9 @@ impl Subject for OptionRegion<OwnedRegion<u8>> {
     fn same(&self, i: Self::Index, k: u64) -> bool {
         self.index(i) == OPTS[k as usize]
     }
+    fn dump(&self, i: Self::Index) -> Vec<u8> {
+        match self.index(i) { None => vec![0], Some(x) => std::iter::once(1u8).chain(x.iter().copied()).collect() }
+    }
     fn payload(k: u64) -> usize {
         OPTS[k as usize].map(|x| x.len()).unwrap_or(0)
     }
@@ -122,6 +139,9 @@ impl Subject for ResultRegion<OwnedRegion<u8>, OwnedRegion<u8>> {
     }
     fn same(&self, i: Self::Index, k: u64) -> bool {
         self.index(i) == RESS[k as usize]
+    }
+    fn dump(&self, i: Self::Index) -> Vec<u8> {
+        match self.index(i) { Ok(x) => std::iter::once(0u8).chain(x.iter().copied()).collect(), Err(x) => std::iter::once(1u8).chain(x.iter().copied()).collect() }
     }
     fn payload(k: u64) -> usize {
         match RESS[k as usize] {
@@ -144,6 +164,9 @@ impl Subject for TupleABRegion<OwnedRegion<u8>, StringRegion> {
     fn same(&self, i: Self::Index, k: u64) -> bool {
         self.index(i) == TUPS[k as usize]
     }
+    fn dump(&self, i: Self::Index) -> Vec<u8> {
+        { let (a, b) = self.index(i); std::iter::once(a.len() as u8).chain(a.iter().copied()).chain(b.as_bytes().iter().copied()).collect() }
+    }
     fn payload(k: u64) -> usize {
         TUPS[k as usize].0.len() + TUPS[k as usize].1.len()
     }
@@ -161,6 +184,9 @@ impl Subject for Vec<u8> {
     }
     fn same(&self, i: Self::Index, k: u64) -> bool {
         *self.index(i) == 10 + k as u8
+    }
+    fn dump(&self, i: Self::Index) -> Vec<u8> {
+        vec![*self.index(i)]
     }
     fn payload(_k: u64) -> usize {
         1
@@ -182,6 +208,9 @@ impl Subject for ColumnsRegion<MirrorRegion<u8>> {
         let it = self.index(i);
         it.len() == ROWS[k as usize].len() && it.iter().eq(ROWS[k as usize].iter().copied())
     }
+    fn dump(&self, i: Self::Index) -> Vec<u8> {
+        self.index(i).iter().collect()
+    }
     fn payload(k: u64) -> usize {
         ROWS[k as usize].len()
     }
@@ -200,6 +229,9 @@ impl Subject for ColumnsRegion<StringRegion> {
         let it = self.index(i);
         it.len() == SROWS[k as usize].len() && it.iter().zip(SROWS[k as usize].iter()).all(|(a, b)| a == *b)
     }
+    fn dump(&self, i: Self::Index) -> Vec<u8> {
+        self.index(i).iter().flat_map(|x| std::iter::once(x.len() as u8).chain(x.as_bytes().iter().copied())).collect()
+    }
     fn payload(k: u64) -> usize {
         SROWS[k as usize].iter().map(|x| x.len()).sum()
     }
@@ -214,6 +246,9 @@ impl Subject for ConsecutiveIndexPairs<OwnedRegion<u8>> {
     }
     fn same(&self, i: Self::Index, k: u64) -> bool {
         self.index(i) == BYTES[k as usize]
+    }
+    fn dump(&self, i: Self::Index) -> Vec<u8> {
+        self.index(i).to_vec()
     }
     fn payload(k: u64) -> usize {
         BYTES[k as usize].len()
@@ -232,6 +267,9 @@ impl Subject for CollapseSequence<ConsecutiveIndexPairs<StringRegion>> {
     fn same(&self, i: Self::Index, k: u64) -> bool {
         self.index(i) == string(k)
     }
+    fn dump(&self, i: Self::Index) -> Vec<u8> {
+        self.index(i).as_bytes().to_vec()
+    }
     fn payload(_k: u64) -> usize {
         0 // deduplicated: no per-push lower bound
     }
@@ -249,10 +287,38 @@ impl Subject for SliceRegion<ConsecutiveIndexPairs<StringRegion>, IndexOptimized
         let it = self.index(i);
         it.len() == k as usize && it.iter().zip(0..k).all(|(a, j)| a == string(j + k))
     }
+    fn dump(&self, i: Self::Index) -> Vec<u8> {
+        self.index(i).iter().flat_map(|x| std::iter::once(x.len() as u8).chain(x.as_bytes().iter().copied())).collect()
+    }
     fn payload(k: u64) -> usize {
         (0..k).map(|j| string(j + k).len()).sum()
     }
     fn reserve_pool(&mut self, _ks: &[u64]) {}
+}
+
+/// Read through the *reference* region of a twin comparison.  If the reference itself cannot be read (because some
+/// other property is broken in the tree under test), the comparison is not this property's business: `None`.
+fn ref_dump<S: Subject>(r: &S, i: S::Index) -> Option<Vec<u8>>
+where
+    S::Index: Copy,
+{
+    std::panic::catch_unwind(std::panic::AssertUnwindSafe(|| r.dump(i))).ok()
+}
+
+/// Operation on the region under comparison: a panic there (while the reference did not panic) is a difference.
+fn try_put<S: Subject>(r: &mut S, k: u64) -> Option<S::Index> {
+    std::panic::catch_unwind(std::panic::AssertUnwindSafe(|| r.put(k))).ok()
+}
+fn try_dump<S: Subject>(r: &S, i: S::Index) -> Option<Vec<u8>>
+where
+    S::Index: Copy,
+{
+    std::panic::catch_unwind(std::panic::AssertUnwindSafe(|| r.dump(i))).ok()
+}
+
+/// The operation under test itself must not panic.
+fn must<T>(f: impl FnOnce() -> T) -> Option<T> {
+    std::panic::catch_unwind(std::panic::AssertUnwindSafe(f)).ok()
 }
 
 fn caps<R: Region>(r: &R) -> Vec<usize> {
@@ -266,27 +332,36 @@ fn heap<R: Region>(r: &R) -> Vec<(usize, usize)> {
 /// `A = default; h1; clear; h2`  versus  `B = default; h2`: same indices, same reads, step by step; two cycles.
 fn clear_twin<S: Subject>(v: &[u64])
 where
-    S::Index: PartialEq,
+    S::Index: PartialEq + Copy,
 {
     let h1 = [v[1] % S::POOL, v[2] % S::POOL, v[3] % S::POOL];
     let h2 = [v[4] % S::POOL, v[5] % S::POOL];
     let mut a = S::default();
     for cycle in 0..2 {
         for k in h1.iter().take(v[6] as usize + cycle) {
-            let _ = a.put(*k);
+            if try_put(&mut a, *k).is_none() {
+                return; // the history itself fails on this tree: not this property's business
+            }
         }
-        a.clear();
+        vassert!(must(|| a.clear()).is_some(), "VF:clear.panicked");
         let mut b = S::default();
         let mut ia = Vec::new();
         let mut ib = Vec::new();
         for k in h2 {
-            let x = a.put(k);
-            let y = b.put(k);
+            let y = match try_put(&mut b, k) {
+                Some(y) => y,
+                None => return,
+            };
+            let x = try_put(&mut a, k);
+            vassert!(x.is_some(), "VF:clear.push_panics_unlike_fresh");
+            let x = x.unwrap();
             vassert!(x == y, "VF:clear.index_differs_from_fresh");
             ia.push(x);
             ib.push(y);
-            for ((i, j), kk) in ia.iter().zip(&ib).zip(&h2) {
-                vassert!(a.same(*i, *kk) && b.same(*j, *kk), "VF:clear.read_differs_from_fresh");
+            for (i, j) in ia.iter().zip(&ib) {
+                if let Some(want) = ref_dump(&b, *j) {
+                    vassert!(try_dump(&a, *i) == Some(want), "VF:clear.read_differs_from_fresh");
+                }
             }
         }
         let ua: Vec<usize> = heap(&a).iter().map(|p| p.0).collect();
@@ -305,39 +380,68 @@ where
     let h = [v[1] % S::POOL, v[2] % S::POOL];
     let d = [v[3] % S::POOL, v[4] % S::POOL, v[5] % S::POOL];
     let mut src = S::default();
-    let idx: Vec<S::Index> = h.iter().map(|k| src.put(*k)).collect();
+    let mut idx = Vec::new();
+    for k in h {
+        match try_put(&mut src, k) {
+            Some(i) => idx.push(i),
+            None => return,
+        }
+    }
     let mut c = if v[6] % 2 == 0 {
-        src.clone()
+        let c = must(|| src.clone());
+        vassert!(c.is_some(), "VF:clone.panicked");
+        c.unwrap()
     } else {
         // destination pre-filled by an unrelated history (shorter, equal or longer)
         let mut dst = S::default();
         for k in d.iter().take((v[6] / 2) as usize) {
-            let _ = dst.put(*k);
+            if try_put(&mut dst, *k).is_none() {
+                return;
+            }
         }
-        dst.clone_from(&src);
+        vassert!(must(|| dst.clone_from(&src)).is_some(), "VF:clone.clone_from_panicked");
         dst
     };
-    for (i, k) in idx.iter().zip(&h) {
-        vassert!(c.same(*i, *k), "VF:clone.copy_reads_differ");
+    let orig: Vec<Option<Vec<u8>>> = idx.iter().map(|i| ref_dump(&src, *i)).collect();
+    for (i, o) in idx.iter().zip(&orig) {
+        if let Some(want) = o {
+            vassert!(try_dump(&c, *i).as_ref() == Some(want), "VF:clone.copy_reads_differ");
+        }
     }
     // identical further pushes answer identically
     let z = v[7] % S::POOL;
-    let (a, b) = (src.put(z), c.put(z));
-    vassert!(a == b, "VF:clone.further_push_index_differs");
-    vassert!(src.same(a, z) && c.same(b, z), "VF:clone.further_push_read_differs");
+    let a = match try_put(&mut src, z) {
+        Some(a) => a,
+        None => return,
+    };
+    let b = try_put(&mut c, z);
+    vassert!(b == Some(a), "VF:clone.further_push_index_differs");
+    let b = b.unwrap();
+    let za = ref_dump(&src, a);
+    if let Some(want) = &za {
+        vassert!(try_dump(&c, b).as_ref() == Some(want), "VF:clone.further_push_read_differs");
+    }
     // then diverge: more data on the original, clear on the copy
     let w = (z + 1) % S::POOL;
-    let iw = src.put(w);
-    for (i, k) in idx.iter().zip(&h) {
-        vassert!(c.same(*i, *k) && src.same(*i, *k), "VF:clone.not_independent_after_push");
+    if try_put(&mut src, w).is_none() {
+        return;
     }
-    vassert!(c.same(b, z), "VF:clone.not_independent_after_push");
+    for (i, o) in idx.iter().zip(&orig) {
+        if let Some(want) = o {
+            vassert!(try_dump(&c, *i).as_ref() == Some(want), "VF:clone.not_independent_after_push");
+        }
+    }
+    if let Some(want) = &za {
+        vassert!(try_dump(&c, b).as_ref() == Some(want), "VF:clone.not_independent_after_push");
+    }
+    let before: Vec<Option<Vec<u8>>> = idx.iter().map(|i| ref_dump(&src, *i)).collect();
     c.clear();
-    let _ = c.put(w);
-    for (i, k) in idx.iter().zip(&h) {
-        vassert!(src.same(*i, *k), "VF:clone.not_independent_after_clear");
+    let _ = try_put(&mut c, w);
+    for (i, o) in idx.iter().zip(&before) {
+        if let Some(want) = o {
+            vassert!(try_dump(&src, *i).as_ref() == Some(want), "VF:clone.not_independent_after_clear");
+        }
     }
-    vassert!(src.same(iw, w) && src.same(a, z), "VF:clone.not_independent_after_clear");
 }
 
 // ---------------------------------------------------------------------------------------------------- C10 reserve / merge twins
@@ -350,29 +454,40 @@ where
     let mut plain = S::default();
     let mut res = S::default();
     let mut other = S::default();
-    let _ = other.put(announced[0]);
-    let _ = other.put(announced[1]);
+    if try_put(&mut other, announced[0]).is_none() || try_put(&mut other, announced[1]).is_none() {
+        return;
+    }
     let mut idx = Vec::new();
     for (step, k) in h.iter().enumerate() {
         if v[6] & (1 << step) != 0 {
-            res.reserve_pool(&announced[..]);
             let fresh = S::default();
-            match v[6] >> 3 {
-                0 => res.reserve_regions([&other, &plain].into_iter()),
-                1 => res.reserve_regions(std::iter::once(&other)), // possibly narrower / shorter than the target
-                2 => res.reserve_regions(std::iter::once(&fresh)), // an empty source
-                _ => res.reserve_regions(std::iter::empty()),      // no source at all
-            }
-            for (i, kk) in idx.iter().zip(&h) {
-                vassert!(res.same(*i, *kk), "VF:reserve.changed_existing_read");
+            let ok = must(|| {
+                res.reserve_pool(&announced[..]);
+                match v[6] >> 3 {
+                    0 => res.reserve_regions([&other, &plain].into_iter()),
+                    1 => res.reserve_regions(std::iter::once(&other)), // possibly narrower / shorter than the target
+                    2 => res.reserve_regions(std::iter::once(&fresh)), // an empty source
+                    _ => res.reserve_regions(std::iter::empty()),      // no source at all
+                }
+            });
+            vassert!(ok.is_some(), "VF:reserve.panicked");
+            for i in idx.iter() {
+                if let Some(want) = ref_dump(&plain, *i) {
+                    vassert!(try_dump(&res, *i) == Some(want), "VF:reserve.changed_existing_read");
+                }
             }
         }
-        let a = plain.put(*k);
-        let b = res.put(*k);
-        vassert!(a == b, "VF:reserve.changed_push_index");
+        let a = match try_put(&mut plain, *k) {
+            Some(a) => a,
+            None => return,
+        };
+        let b = try_put(&mut res, *k);
+        vassert!(b == Some(a), "VF:reserve.changed_push_index");
         idx.push(a);
-        for (i, kk) in idx.iter().zip(&h) {
-            vassert!(res.same(*i, *kk) && plain.same(*i, *kk), "VF:reserve.changed_read");
+        for i in idx.iter() {
+            if let Some(want) = ref_dump(&plain, *i) {
+                vassert!(try_dump(&res, *i) == Some(want), "VF:reserve.changed_read");
+            }
         }
     }
 }
@@ -385,28 +500,42 @@ where
     let mut s1 = S::default();
     let mut s2 = S::default();
     for k in [v[3] % S::POOL, v[4] % S::POOL].iter().take((v[6] % 3) as usize) {
-        let _ = s1.put(*k);
+        if try_put(&mut s1, *k).is_none() {
+            return;
+        }
     }
-    let _ = s2.put(v[5] % S::POOL);
-    let mut m = match v[6] / 3 {
+    if try_put(&mut s2, v[5] % S::POOL).is_none() {
+        return;
+    }
+    let m = must(|| match v[6] / 3 {
         0 => S::merge_regions(std::iter::empty()),
         1 => S::merge_regions(std::iter::once(&s1)),
         _ => S::merge_regions([&s1, &s2, &s1].into_iter()),
-    };
+    });
+    vassert!(m.is_some(), "VF:merge.panicked");
+    let mut m = m.unwrap();
     // second generation: merged from its own ancestor
     if v[7] == 1 {
-        let _ = m.put(h[1]);
-        m = S::merge_regions([&m, &s1].into_iter());
+        let _ = try_put(&mut m, h[1]);
+        let m2 = must(|| S::merge_regions([&m, &s1].into_iter()));
+        vassert!(m2.is_some(), "VF:merge.panicked");
+        m = m2.unwrap();
     }
     let mut fresh = S::default();
     let mut idx = Vec::new();
     for k in h {
-        let a = m.put(k);
-        let b = fresh.put(k);
-        vassert!(a == b, "VF:merge.index_differs_from_default");
+        let b = match try_put(&mut fresh, k) {
+            Some(b) => b,
+            None => return,
+        };
+        let a = try_put(&mut m, k);
+        vassert!(a == Some(b), "VF:merge.index_differs_from_default");
+        let a = a.unwrap();
         idx.push(a);
-        for (i, kk) in idx.iter().zip(&h) {
-            vassert!(m.same(*i, *kk), "VF:merge.read_differs");
+        for i in idx.iter() {
+            if let Some(want) = ref_dump(&fresh, *i) {
+                vassert!(try_dump(&m, *i) == Some(want), "VF:merge.read_differs");
+            }
         }
     }
 }
@@ -593,13 +722,13 @@ pub fn harnesses() -> Vec<H> {
     let cat = "OwnedRegion<u8>, StringRegion, SliceRegion<MirrorRegion<u8>>, SliceRegion<OwnedRegion<u8>>, OptionRegion<OwnedRegion<u8>>, ResultRegion<OwnedRegion<u8>,OwnedRegion<u8>>, TupleABRegion<OwnedRegion<u8>,StringRegion>, Vec<u8>, ColumnsRegion<MirrorRegion<u8>>, ConsecutiveIndexPairs<OwnedRegion<u8>>, CollapseSequence<ConsecutiveIndexPairs<StringRegion>>, SliceRegion<ConsecutiveIndexPairs<StringRegion>, IndexOptimized>";
     let _ = cat;
     vec![
-        H { name: "clear_twin", props: &["C08"], nargs: 7, pre: pre12, doms: doms_clear, run: run_clear, panic_ok: false,
+        H { name: "clear_twin", props: &["C08"], nargs: 7, pre: pre12, doms: doms_clear, run: run_clear, panic_ok: true,
             bound: "13 compositions; history of 0..3 pushes (pool of 4-6 values), clear, 2 pushes compared step by step with a default twin (indices, reads, used bytes); two clear/refill cycles", kani: false },
-        H { name: "clone_twin", props: &["C09"], nargs: 8, pre: pre12, doms: doms_clone, run: run_clone, panic_ok: false,
+        H { name: "clone_twin", props: &["C09"], nargs: 8, pre: pre12, doms: doms_clone, run: run_clone, panic_ok: true,
             bound: "13 compositions; 2 pushes, then clone or clone_from into a destination pre-filled with 0..3 unrelated items; identical further push, then push on the original and clear+push on the copy; all issued indices re-read on both", kani: false },
-        H { name: "reserve_twin", props: &["C10", "C02"], nargs: 7, pre: pre12, doms: doms_reserve, run: run_reserve, panic_ok: false,
+        H { name: "reserve_twin", props: &["C10", "C02"], nargs: 7, pre: pre12, doms: doms_reserve, run: run_reserve, panic_ok: true,
             bound: "13 compositions; 3 pushes with reserve_items / reserve_regions (sources: unrelated + own twin / one unrelated, possibly narrower / one empty / none) before any subset of them, compared with a twin that never reserves", kani: false },
-        H { name: "merge_twin", props: &["C10"], nargs: 8, pre: pre12, doms: doms_merge, run: run_merge, panic_ok: false,
+        H { name: "merge_twin", props: &["C10"], nargs: 8, pre: pre12, doms: doms_merge, run: run_merge, panic_ok: true,
             bound: "13 compositions; merge_regions over 0, 1 or 3 source regions (empty / populated / repeated), optionally a second generation merged from its own ancestor; 2 pushes compared with a default twin", kani: false },
         H { name: "presize_no_realloc", props: &["C17"], nargs: 8, pre: pre9, doms: doms_presize, run: run_presize, panic_ok: false,
             bound: "8 vector-backed structural regions + FlatStack::merge_capacity; batch of 0..3 items; reserve_items / reserve_regions (on an empty or populated region) / merge_regions, then pushing exactly the announced contents: every capacity reported by heap_size constant", kani: false },
